@@ -90,6 +90,7 @@ def run(model: Model, rep: Report) -> None:
     from .tokenizer import refill_before_read_rule
 
     refill_before_read_rule(model, rep, "C02-R9", model.func("pdfminer.psparser.PSBaseParser.nextline"))
+    _classic_entries(model, rep)
     # ---------------------------------------------------------------- R6
     r6 = rep.rule("C02-R6", "BIND", "object-stream member lookup: objs[N*2 + index] with index from the xref entry; xref-stream entry fields", 4)
     om = model.func(DOC + "._getobj_objstm")
@@ -282,3 +283,28 @@ def cache_writers_rule(model: Model, rep: Report, rid: str) -> None:
     for cache, k in seen.items():
         if k == 0:
             raise AnchorMissing(f"no store into {cache} found")
+
+
+def _np(node) -> str:
+    """Source text without white space and without parentheses (tuple spelling differs between Python versions)."""
+    return "".join(unparse(node).split()).replace("(", "").replace(")", "")
+
+
+def _classic_entries(model: Model, rep: Report) -> None:
+    r10 = rep.rule("C02-R10", "BIND", "classic table: subsection `start count`, one entry per object number start..start+count-1, `offset generation n` recorded, `f` skipped; body scan records `N G obj` at its line start and the members of object streams; object streams are parsed completely", 6)
+    ld = model.func(D + "PDFXRef.load")
+    s1 = _np(ld.node)
+    r10.check("start,nobjs=mapint,f" in s1 and "forobjidinrangestart,start+nobjs:" in s1, site(ld), ld.qualname, "a subsection header `start count` covers object numbers start .. start + count - 1", why="subsection loop changed")
+    r10.check("pos_b,genno_b,use_b=f" in s1 and "ifuse_b!=b'n':continue" in s1 and "pos_i=safe_intpos_bgenno_i=safe_intgenno_b" in s1 and "self.offsets[objid]=None,pos_i,genno_i" in s1, site(ld), ld.qualname, "an entry `offset generation n` is stored as (None, offset, generation) under its object number; other entries are skipped", why="entry binding changed")
+    r10.check("iflenf!=3:" in s1 and "iflenf!=2:" in s1, site(ld), ld.qualname, "entries have three fields, subsection headers two", why="field counts changed")
+    gp = model.func(D + "PDFXRef.get_pos")
+    r10.check(_np(gp.node).endswith("returnself.offsets[objid]"), site(gp), gp.qualname, "lookup returns the recorded entry (KeyError if the section does not define the object)", why="changed")
+    fb = model.func(D + "PDFXRefFallback.load")
+    s2 = _np(fb.node)
+    cue = model.cls(D + "PDFXRefFallback").attrs.get("PDFOBJ_CUE")
+    cue_ok = cue is not None and "".join(unparse(cue).split()) in ("re.compile('^(\\\\d+)\\\\s+(\\\\d+)\\\\s+obj\\\\b')",)
+    r10.check("parser.seek0" in s2 and "objid_s,genno_s=m.groups" in s2 and "objid=intobjid_sgenno=intgenno_sself.offsets[objid]=None,pos,genno" in s2 and "forindexinrangen:objid1=objs[index*2]self.offsets[objid1]=objid,index,0" in s2 and "n=minn,lenobjs//2" in s2, site(fb), fb.qualname, "body scan from offset 0: `N G obj` at a line start is recorded at that line's position; members of an object stream are recorded as (stream, index, 0) for index < N", why="body scan changed")
+    r10.check(cue_ok, site(fb), fb.qualname, "the object cue is ^(\\d+)\\s+(\\d+)\\s+obj\\b", why=f"cue is {unparse(cue) if cue is not None else None}")
+    go = model.func(DOC + "._get_objects")
+    s3 = _np(go.node)
+    r10.check("n=castint,stream['N']" in s3 and "parser=PDFStreamParserstream.get_data" in s3 and "parser.set_documentself" in s3 and "_,obj=parser.nextobjectobjs.appendobj" in s3 and s3.endswith("returnobjs,n"), site(go), go.qualname, "an object stream is tokenised to its end into one flat list (header pairs, then the objects) with the document attached for references", why="changed")
